@@ -168,7 +168,7 @@ def _check_asserts(ck, R, fi, env, label):
     return n
 
 
-def _regex_parser(ck, R1, pq, ms):
+def _regex_parser(ck, R1, pq, ms, anchor=None):
     pat = A.const_str(ms[0].args[0])
     tree = sre_parse.parse(pat)
     groups = dict(tree.state.groupdict)
@@ -193,7 +193,7 @@ def _regex_parser(ck, R1, pq, ms):
         ck.ob(R1, pq.key(None, tag), ok, "%s (witness string %r parses into its parts)" % (tag, witness) if ok else
               "%s violated: for %r %s" % (tag, witness, why), pq.where(ms[0]))
     rets = pq.returns()
-    okg = bool(rets) and all(pq.xnorm(r.value).startswith(("re.match(", "re.fullmatch(")) and pq.xnorm(r.value).endswith(").groupdict()") for r in rets)
+    okg = bool(rets) and all(pq.xnorm(r.value).endswith(").groupdict()") and (".match(" in pq.xnorm(r.value) or ".fullmatch(" in pq.xnorm(r.value)) for r in rets)
     ck.ob(R1, pq.key(None, "groupdict"), okg, "the parts are the named groups" if okg else "parse_qualified_name does not return match.groupdict()", pq.where())
     return shape
 
@@ -273,6 +273,15 @@ def check_parser(ck, R1):
     ms = [c for c in pq.calls("match") if A.call_dotted(c) in ("re.match", "re.fullmatch")]
     if len(ms) == 1 and A.const_str(ms[0].args[0]):
         return _regex_parser(ck, R1, pq, ms)
+    # a pattern compiled once at module level: PATTERN = re.compile(<literal>) ... PATTERN.match(name)
+    for c in pq.calls("match") + pq.calls("fullmatch"):
+        recv = A.call_recv(c)
+        if isinstance(recv, ast.Name):
+            v = pq.fi.module.assigns.get(recv.id)
+            if isinstance(v, ast.Call) and A.call_dotted(v) == "re.compile" and v.args and A.const_str(v.args[0]):
+                pseudo = ast.Call(func=c.func, args=[v.args[0]] + list(c.args), keywords=[])
+                ast.copy_location(pseudo, c)
+                return _regex_parser(ck, R1, pq, [pseudo], anchor=c)
     return _partition_parser(ck, R1, pq)
 
 
